@@ -54,6 +54,10 @@ struct C<'a> {
     all_plain: bool,
     max_lease: Option<u64>,
     retry: dhcpv4::RetryConfig,
+    /// the retry configuration currently set on the socket (`retry` is the laxest one seen so far)
+    retry_now: dhcpv4::RetryConfig,
+    /// the application is a member of 224.0.0.251
+    joined: bool,
     last_client_tx: Option<i64>,
     /// after the latest valid ACK: first unicast / broadcast REQUEST times
     renew_seen: Option<i64>,
@@ -162,7 +166,8 @@ pub fn run(tape: &mut Tape, props: Props, thorough: bool, trace_on: bool) -> Out
     let h = node.sockets.add(s);
     // sometimes the application joins an IPv4 multicast group before the interface has an address: membership
     // reports need one and must not leave before there is one
-    if tape.draw(4) == 0 {
+    let joined = tape.draw(4) == 0;
+    if joined {
         let _ = node.iface.join_multicast_group(smoltcp::wire::Ipv4Address::new(224, 0, 0, 251));
     }
     let desc = format!("dhcp max_lease={:?} retry={:?} ignore_naks={} start={}us rx-packet-buffer={:?}", max_lease, retry, ignore_naks, cfg.start_us, rxbuf_len);
@@ -189,6 +194,8 @@ pub fn run(tape: &mut Tape, props: Props, thorough: bool, trace_on: bool) -> Out
         all_plain: true,
         max_lease,
         retry,
+        retry_now: retry,
+        joined,
         last_client_tx: None,
         renew_seen: None,
         rebind_seen: None,
@@ -732,6 +739,7 @@ fn body(c: &mut C, thorough: bool) -> Result<(), Violation> {
         let tx_before_poll = c.stats.get("frames.tx");
         poll(c)?;
         // scenario switches
+        let mut group_call = false;
         match c.tape.draw(240) {
             0..=5 => {
                 c.server_silent = !c.server_silent;
@@ -740,6 +748,32 @@ fn body(c: &mut C, thorough: bool) -> Result<(), Violation> {
             6 => {
                 c.arp_answer = !c.arp_answer;
                 c.stats.inc("dhcp.arp-silence-toggled");
+            }
+            7 | 8 => {
+                // the application changes the retry configuration of the running client (fewer or more REQUEST
+                // retries, other time-outs); the gap oracle goes by the laxest configuration seen so far
+                let mut r = c.retry_now;
+                r.request_retries = *c.tape.pick(&[1u16, 2, 3, 5, 8]);
+                if c.tape.draw(2) == 0 {
+                    r.discover_timeout = Duration::from_secs(*c.tape.pick(&[1u64, 5, 10]));
+                    r.initial_request_timeout = Duration::from_millis(*c.tape.pick(&[300u64, 1000, 5000]));
+                }
+                c.retry_now = r;
+                let h = c.h;
+                let so = c.node.sockets.get_mut::<dhcpv4::Socket>(h);
+                guard("dhcpv4::set_retry_config", || so.set_retry_config(r))?;
+                c.retry.request_retries = c.retry.request_retries.max(r.request_retries);
+                c.retry.discover_timeout = c.retry.discover_timeout.max(r.discover_timeout);
+                c.retry.initial_request_timeout = c.retry.initial_request_timeout.max(r.initial_request_timeout);
+                c.stats.inc("dhcp.retry-config-changed-at-run-time");
+            }
+            9 if c.joined => {
+                // ... or leaves the multicast group it joined at start (possibly while the interface has no address)
+                let iface = &mut c.node.iface;
+                let _ = guard("leave_multicast_group", || iface.leave_multicast_group(smoltcp::wire::Ipv4Address::new(224, 0, 0, 251)))?;
+                c.joined = false;
+                group_call = true;
+                c.stats.inc("dhcp.group-left-at-run-time");
             }
             _ => {}
         }
@@ -769,7 +803,9 @@ fn body(c: &mut C, thorough: bool) -> Result<(), Violation> {
                 }
             } else {
                 c.idle = 0;
-                if next > c.now + 1 && c.tape.draw(3) == 0 {
+                // (IGMP / MLD messages are outside poll_at's account - assumption of C13 - so no probe right after the
+                // application left a group)
+                if next > c.now + 1 && !group_call && c.tape.draw(3) == 0 {
                     let t = if c.tape.draw(4) == 0 { next - 1 } else { c.now + 1 + c.tape.draw((next - c.now - 1) as u64) as i64 };
                     let before = c.stats.get("frames.tx");
                     let ev_before = c.stats.get("dhcp.deconfigured-events") + c.stats.get("dhcp.configured-events");
